@@ -2,8 +2,9 @@
 C18 — path and string utilities (dune/common/path.cc, path.hh, stringutility.hh).
 
 Strings are `List Char` (`Str`, defined in Model/C18/Str.lean together with `hasPrefix`/`hasSuffix`).
-`bufferSize`, `pathIndicatesDirectory` and `concatPaths` are REGENERATED from the source on every run
-(Gen/C18.lean, tools/translators/tr_c18.py).  Two levels (DESIGN.md 3.2):
+`bufferSize`, `pathIndicatesDirectory`, `concatPaths`, both overloads of `prettyPath` (`prettyPathWith`,
+`prettyPathAutoWith`) and the control skeleton of `formatString` (`fmtFitsStack`, `fmtDynamicSize`) are REGENERATED
+from the source on every run (Gen/C18.lean, tools/translators/tr_c18.py).  Two levels (DESIGN.md 3.2):
 
 * **faithful, character level** — `processPathC` transcribes `Dune::processPath` pass by pass
   (append '/', collapse "//", drop "/./", erase a leading "./", the `find("/../")`/back-up loop);
@@ -49,9 +50,9 @@ def formatStringWith (bufSize : Nat) (ideal : Option Str) : FmtRes :=
   match snprintfM bufSize ideal with
   | none => .exception                                   -- if (r<0) DUNE_THROW
   | some (buffer, r) =>
-    if r < bufSize then .ok buffer                        -- return std::string(buffer)
+    if fmtFitsStack r bufSize then .ok buffer             -- if (r<bufferSize) return std::string(buffer)   [regenerated]
     else
-      let dynamicBufferSize := r + 1
+      let dynamicBufferSize := fmtDynamicSize r            -- static_cast<std::size_t>(r)+1                  [regenerated]
       match snprintfM dynamicBufferSize ideal with
       | none => .exception
       | some (dynamicBuffer, _) => .ok dynamicBuffer
@@ -219,8 +220,10 @@ def processPathC (p : Str) : Str :=
   | some r => r
   | none => fuelExhausted
 
-/-- `prettyPath(p, isDirectory)`, parameterised by the sanitiser -/
-def prettyPathWith (proc : Str → Str) (p : Str) (isDirectory : Bool) : Str :=
+/-- the hand-written transcription of `prettyPath(p, isDirectory)`, parameterised by the sanitiser.  Since round four
+    the driver runs `prettyPathWith` REGENERATED from path.cc (Gen/C18.lean); this canonical form is what the proofs
+    work with, and `prettyPathWith_eq_canon` (Proofs/C18/Tables.lean) shows the regenerated definition equal to it. -/
+def prettyCanonWith (proc : Str → Str) (p : Str) (isDirectory : Bool) : Str :=
   let result := proc p
   if result = [] then ['.']
   else if result = ['/'] then result
@@ -232,8 +235,8 @@ def prettyPathWith (proc : Str → Str) (p : Str) (isDirectory : Bool) : Str :=
 
 def prettyPath (p : Str) (isDirectory : Bool) : Str := prettyPathWith processPathC p isDirectory
 
-/-- `prettyPath(p)` -/
-def prettyPathAuto (p : Str) : Str := prettyPath p (pathIndicatesDirectory p)
+/-- `prettyPath(p)` (the body is regenerated: `prettyPathAutoWith`, Gen/C18.lean) -/
+def prettyPathAuto (p : Str) : Str := prettyPathAutoWith prettyPath p
 
 inductive RelRes where
   | ok (r : Str)
